@@ -16,6 +16,42 @@ open DecM
 
 def bsVersion (major minor : Nat) : Nat := major * 256 + minor
 
+/-- allocation events of `RAnsSymbolDecoder<…>::Create` (bitstream ≥ 2.0) with precision `pb` on the
+    bytes `bs`: `probability_table_.resize(num_symbols_)` (uint32) once the count has passed the
+    plausibility test, then — when the table has been read and is not empty —
+    `rans_build_look_up_table`: `lut_table_.resize(rans_precision)` (uint32) and
+    `probability_table_.resize(num_symbols)` (`rans_sym`, 8 bytes) -/
+def ransCreateAllocs (pb : Nat) (bs : Bytes) : List (String × Nat) :=
+  match decVarint 32 bs with
+  | none => []
+  | some (n, rest) =>
+    if n / 64 > rest.length then [] else
+    ("rans_symbol_decoder.probability_table", 4 * n) ::
+      (match decTableGo n n [] rest with
+       | none => []
+       | some (probs, _) =>
+         if probs.isEmpty then []
+         else [("rans_decoder.lut_table", 4 * 2 ^ pb), ("rans_decoder.probability_table", 8 * n)])
+
+/-- allocation events of `DecodeSymbols(num_values, …)` on the bytes `bs`: the symbol decoder of the
+    tagged scheme (5-bit tags) or of the raw scheme (`bit length` byte) -/
+def symbolAllocs (numValues : Nat) (bs : Bytes) : List (String × Nat) :=
+  if numValues = 0 then [] else
+  match bs with
+  | [] => []
+  | scheme :: rest =>
+    if scheme = 0 then ransCreateAllocs (ransPrecisionBits 5) rest
+    else if scheme = 1 then
+      match rest with
+      | [] => []
+      | b :: rest' => if 1 ≤ b ∧ b ≤ 18 then ransCreateAllocs (ransPrecisionBits b) rest' else []
+    else []
+
+/-- `DecodeSymbols` with its allocation events logged (the values come from the pure adapter) -/
+def decodeSymbolsM (numValues numComponents : Nat) : DecM (List Nat) := fun s =>
+  lift (Leaf.decodeSymbols numValues numComponents)
+    { s with allocs := (symbolAllocs numValues s.rest).reverse ++ s.allocs }
+
 /-- decoder options: attribute types whose transform is skipped (`SetSkipAttributeTransform`) -/
 structure DecOpts where
   skip : List Nat := []
@@ -135,7 +171,7 @@ def decodeIntegerValues (kind : Nat) (numEntries nc : Nat) : DecM (List Int) := 
   require (numEntries > 0)
   let compressed ← rdU8
   let raw : List Nat ←
-    if compressed > 0 then lift (Leaf.decodeSymbols numValues nc)
+    if compressed > 0 then decodeSymbolsM numValues nc
     else do
       let numBytes ← rdU8
       if numBytes == 4 then
@@ -302,7 +338,7 @@ def decodeSeqConnectivity : DecM (Nat × List (Nat × Nat × Nat)) := do
   let idx ←
     if method == 0 then do
       alloc "mesh_sequential.indices_buffer" (12 * numFaces)
-      let syms ← lift (Leaf.decodeSymbols (numFaces * 3) 1)
+      let syms ← decodeSymbolsM (numFaces * 3) 1
       ofOption (decompressIndices syms)
     else if numPoints < 256 then replicateM' (3 * numFaces) rdU8
     else if numPoints < 2^16 then replicateM' (3 * numFaces) rdU16
